@@ -167,8 +167,8 @@ def run(prop, tier, seed, replay=None):
 
     ck.cov['tlc_configs'] = []
     # ---- 1. exhaustive small configurations (known-finding classes pruned), edge cover replayed
-    plans = [([1], 2, 2, 1, 1)] if tier == 'quick' else \
-            [([1], 2, 2, 1, 1), ([1, 2], 2, 1, 0, 0), ([1], 1, 2, 1, 1), ([1, 2], 2, 1, 1, 0)]
+    plans = [([1], 2, 3, 0, 2), ([1], 2, 2, 1, 1)] if tier == 'quick' else \
+            [([1], 2, 3, 0, 2), ([1], 2, 2, 1, 2), ([1, 2], 2, 1, 0, 0), ([1], 1, 2, 1, 1), ([1, 2], 2, 1, 1, 0)]
     for (streams, qcap, ma, mb, mexh) in plans:
         ck.log('TLC exhaustive: streams %s, queue cap %d, msgs A=%d B=%d, exhaust toggles %d' % (streams, qcap, ma, mb, mexh))
         res, nodes, edges, inits = tlc.dump_graph('MC_Session', 'mc.cfg', timeout=1500,
@@ -183,7 +183,7 @@ def run(prop, tier, seed, replay=None):
         ck.add('transitions', len(edges))
         scheds, remaining = schedules_from_graph(nodes, edges, inits, streams, rng)
         total_paths = len(scheds)
-        if tier == 'quick' and len(scheds) > 1200:
+        if tier == 'quick' and len(scheds) > 4500:
             scheds = rng.sample(scheds, 1200)
         job = {'nstreams': len(streams), 'qcap': qcap, 'known': listed + SKIP.get(prop, []), 'schedules': scheds,
                'random': {'n': 0, 'seed': ck.seed, 'steps': 0, 'streams': 1}}
